@@ -27,6 +27,10 @@ pub struct InputSpec {
     pub fmt: Fmt,
     pub docs: Vec<DocSpec>,
     pub mode: Mode,
+    /// leave the source format to detection when detection (hook) picks `fmt`
+    pub detect: bool,
+    /// text of an input without documents: 0 empty, 1 blank lines, 2 comments only (YAML/TOML)
+    pub empty_variant: u8,
 }
 
 #[derive(Clone, Debug)]
@@ -59,8 +63,10 @@ fn input_spec() -> BoxedStrategy<InputSpec> {
             1 => proptest::collection::vec(docspec(), 40..300),
         ],
         mode_strategy(),
+        proptest::bool::weighted(0.35),
+        0u8..3,
     )
-        .prop_map(|(fmt, docs, mode)| InputSpec { fmt, docs, mode })
+        .prop_map(|(fmt, docs, mode, detect, empty_variant)| InputSpec { fmt, docs, mode, detect, empty_variant })
         .boxed()
 }
 
@@ -167,7 +173,7 @@ pub fn build_input(spec: &InputSpec) -> Vec<Piece> {
 
 fn history_json(h: &History) -> J {
     json!({"unit": "history", "to": h.to.name(), "inputs": h.inputs.iter().map(|i| json!({
-        "fmt": i.fmt.name(), "mode": i.mode.to_json(),
+        "fmt": i.fmt.name(), "mode": i.mode.to_json(), "detect": i.detect, "empty_variant": i.empty_variant,
         "docs": i.docs.iter().map(|d| json!({"v": d.v.to_json(), "style": d.style.to_json(), "sep": d.sep, "boundary": d.boundary.map(|(m, dl)| json!([m, dl]))})).collect::<Vec<_>>()
     })).collect::<Vec<_>>()})
 }
@@ -180,6 +186,8 @@ fn history_from_json(j: &J) -> Option<History> {
             Some(InputSpec {
                 fmt: Fmt::from_name(i["fmt"].as_str()?)?,
                 mode: Mode::from_json(&i["mode"])?,
+                detect: i["detect"].as_bool().unwrap_or(false),
+                empty_variant: i["empty_variant"].as_u64().unwrap_or(0) as u8,
                 docs: i["docs"]
                     .as_array()?
                     .iter()
@@ -201,9 +209,20 @@ fn history_from_json(j: &J) -> Option<History> {
 pub fn check_history(h: &History, rec: &mut Recorder) -> Result<(), String> {
     // build inputs; validate each with the independent reader
     let mut built: Vec<(Fmt, Mode, Vec<Piece>)> = vec![];
+    let mut texts: Vec<Vec<u8>> = vec![];
+    let mut froms: Vec<Option<Fmt>> = vec![];
     for spec in &h.inputs {
         let pieces = build_input(spec);
-        let text: Vec<u8> = pieces.iter().flat_map(|p| p.in_stream.iter().copied()).collect();
+        let mut text: Vec<u8> = pieces.iter().flat_map(|p| p.in_stream.iter().copied()).collect();
+        if pieces.is_empty() && matches!(spec.fmt, Fmt::Yaml | Fmt::Json) {
+            // an input without documents, in every spelling the format allows
+            text = match (spec.fmt, spec.empty_variant) {
+                (_, 0) => vec![],
+                (_, 1) => b"\n \n".to_vec(),
+                (Fmt::Yaml, _) => b"# only a comment\n\n# another\n".to_vec(),
+                _ => b" \t\r\n".to_vec(),
+            };
+        }
         let models: Vec<Val> = pieces.iter().map(|p| p.model.clone()).collect();
         let ok = if spec.fmt == Fmt::Toml && pieces.is_empty() { true } else { matches!(read_any(&text, spec.fmt), Ok(d) if d == models) };
         let ok = ok && pieces.iter().all(|p| matches!(read_any(&p.alone, spec.fmt), Ok(d) if d.len() == 1 && d[0] == p.model));
@@ -211,19 +230,28 @@ pub fn check_history(h: &History, rec: &mut Recorder) -> Result<(), String> {
             rec.reject();
             return Ok(());
         }
+        // leave the format to detection when detection is defined to pick it
+        let mut from = Some(spec.fmt);
+        if spec.detect && !pieces.is_empty() {
+            if detect(&text, &Mode::Slice) == Ok(Some(spec.fmt)) && detect(&text, &spec.mode) == Ok(Some(spec.fmt)) {
+                from = None;
+            }
+        }
         built.push((spec.fmt, spec.mode.clone(), pieces));
+        texts.push(text);
+        froms.push(from);
     }
     let to = h.to;
     // arrangement 1: one call per input
     let mut out1 = vec![];
     {
         let mut t = xt::Translator::new(&mut out1, to.xt());
-        for (fmt, mode, pieces) in &built {
+        for (i, (fmt, mode, pieces)) in built.iter().enumerate() {
             if *fmt == Fmt::Toml && pieces.is_empty() {
                 continue;
             }
-            let text: Vec<u8> = pieces.iter().flat_map(|p| p.in_stream.iter().copied()).collect();
-            match translator_call(&mut t, &text, mode, Some(*fmt)) {
+            let text = &texts[i];
+            match translator_call(&mut t, text, mode, froms[i]) {
                 Verdict::Ok => {}
                 other => return Err(format!("translating a valid {} input of {} documents failed: {}", fmt.name(), pieces.len(), other.brief())),
             }
@@ -310,6 +338,12 @@ pub fn check_history(h: &History, rec: &mut Recorder) -> Result<(), String> {
     if has_scalar {
         rec.class("scalar_documents");
     }
+    if froms.iter().any(|f| f.is_none()) {
+        rec.class("input_format_detected");
+    }
+    if built.iter().zip(&texts).any(|((_, _, p), t)| p.is_empty() && !t.is_empty()) {
+        rec.class("empty_input_with_comments_or_blanks");
+    }
     rec.sample(|| json!({"to": to.name(), "documents": n, "inputs": built.iter().map(|(f, m, p)| format!("{}:{}docs:{}", f.name(), p.len(), m.class())).collect::<Vec<_>>(), "output": brief_bytes(&out1)}));
     Ok(())
 }
@@ -341,12 +375,14 @@ fn big_case(shard: u32, k: usize) -> History {
             boundary: None,
         })
         .collect();
-    let mut inputs = vec![InputSpec { fmt, docs, mode: if k % 2 == 0 { Mode::Slice } else { Mode::Reader(crate::sio::Sched::Fixed(4096 + k)) } }];
+    let mut inputs = vec![InputSpec { fmt, docs, mode: if k % 2 == 0 { Mode::Slice } else { Mode::Reader(crate::sio::Sched::Fixed(4096 + k)) }, detect: k % 2 == 1, empty_variant: 0 }];
     // one large document (up to ~300 KiB)
     inputs.push(InputSpec {
         fmt,
         docs: vec![DocSpec { v: Val::Seq((0..(20_000 + 3000 * k)).map(|i| Val::Str(format!("item-{}", i))).collect()), style: Style::canonical(), sep: 1, boundary: None }],
         mode: Mode::Reader(crate::sio::Sched::Sizes(vec![8192, 1, 16384])),
+        detect: false,
+        empty_variant: 0,
     });
     History { inputs, to }
 }
@@ -359,7 +395,7 @@ impl Check for C03 {
         "exploration"
     }
     fn rule(&self) -> String {
-        "Generated histories: 1..4 inputs, each a stream of 0..300 model documents (scalars, empty and larger collections, documents padded to end at 8192*m+delta, delta in [-3,3]) in its own source format (JSON, MessagePack, YAML, occasionally TOML) with drawn separators (JSON none/blank/newlines; YAML '---', '...', comments, directives) and its own supply mode, fed in order to one Translator for a streaming target. Oracle (1), metamorphic: the output equals the concatenation of every document translated alone, and equals the output when the same documents are fed one call per document. Oracle (2), framing by the independent target reader: exactly N documents (one line each for JSON, each '---'-introduced for YAML, back-to-back for MessagePack) equal in order to the model values. Non-trivial = N >= 2 and (>= 2 inputs, or a scalar document, or a boundary-straddling document); distinct by hash of (output, target, N). Unit 'big' runs streams of 500..5000 small documents and documents of hundreds of KiB.".into()
+        "Generated histories: 1..4 inputs, each a stream of 0..300 model documents (scalars, empty and larger collections, documents padded to end at 8192*m+delta, delta in [-3,3]) in its own source format (JSON, MessagePack, YAML, occasionally TOML) with drawn separators (JSON none/blank/newlines; YAML '---', '...', comments, directives; inputs without documents as empty, blank or comment-only text), its own supply mode, and its format named or - when detection is defined to pick it - left to detection, fed in order to one Translator for a streaming target. Oracle (1), metamorphic: the output equals the concatenation of every document translated alone, and equals the output when the same documents are fed one call per document. Oracle (2), framing by the independent target reader: exactly N documents (one line each for JSON, each '---'-introduced for YAML, back-to-back for MessagePack) equal in order to the model values. Non-trivial = N >= 2 and (>= 2 inputs, or a scalar document, or a boundary-straddling document); distinct by hash of (output, target, N). Unit 'big' runs streams of 500..5000 small documents and documents of hundreds of KiB.".into()
     }
     fn assumptions(&self) -> Vec<String> {
         vec!["TOML targets are covered by C08".into(), "JSON separators never glue a scalar to the next token (known finding K1)".into()]
@@ -368,7 +404,7 @@ impl Check for C03 {
         vec![Unit::gen("history", 16, tier.pick(3000, 40_000)), Unit::enumerate("big", tier.pick(6, 16))]
     }
     fn required_classes(&self, _tier: Tier) -> Vec<&'static str> {
-        vec!["docs:0", "docs:2-9", "docs:10-99", "docs:100+", "multi_input", "mixed_formats", "boundary_straddling", "scalar_documents", "to:json", "to:yaml", "to:msgpack"]
+        vec!["docs:0", "docs:2-9", "docs:10-99", "docs:100+", "multi_input", "mixed_formats", "boundary_straddling", "scalar_documents", "to:json", "to:yaml", "to:msgpack", "input_format_detected", "empty_input_with_comments_or_blanks"]
     }
     fn run_unit(&self, unit: &Unit, shard: u32, seed: u64, tier: Tier, rec: &mut Recorder) {
         match unit.name {
